@@ -76,6 +76,7 @@ def run(rep: core.Report):
     rep.instance("R02b", DYN, "get_dynmat_ij", "block address (i*3 + a) * 3 num_patom + j*3 + b", ok_adr, "the 3x3 block of the pair (i, j) is not stored at rows 3i.., columns 3j..", line=tu.line(gij))
     # ---- R02c ------------------------------------------------------------
     fwd = core.find_def(PYDM, "DynamicalMatrix._run_py_dynamical_matrix")
+    _r02k(rep)
     core.require_names(fwd, ["phase", "vec", "q", "fc_elem", "phase_factor", "sqrt_mm", "m", "k", "dm_local", "mass", "i", "j", "s_i", "s_j", "is_compact_fc", "svecs_at", "svecs", "multi", "adrs", "ll", "fc", "dm"], f"{PYDM}::_run_py_dynamical_matrix")
     defs = {core.src(st.targets[0]): st.value for st in ast.walk(fwd) if isinstance(st, ast.Assign) and isinstance(st.targets[0], ast.Name)}
     loops_py = [lp_ for lp_ in ast.walk(fwd) if isinstance(lp_, ast.For)]
@@ -233,6 +234,30 @@ _ATTR = {"p2s_map": ("P", "R"), "s2p_map": ("S", "R"), "p2p_map": ("R", "P")}
 _SUB = {("R", "S"), ("P", "P"), ("S", "S"), ("R", "R")}  # value set -> admissible index set
 
 
+def _r02k(rep):
+    """Consumers of the dense shortest-vector storage read exactly m vectors from the address of the pair."""
+    rep.rule("R02k", "dense shortest-vector storage is (multiplicity m, address) per atom pair: a consumer takes the m vectors svecs[address : address + m] of a pair; a segmented reduction over the addresses alone (np.add.reduceat(x, addresses)) ends each segment at the NEXT address in the flattened order, which is the same only for storage packed without gaps in exactly that order -- not part of the format (sparse_to_dense_svecs may pad), and unused slots then enter the phase factor", 1)
+    n = 0
+    for rel in (PYDM, "phonopy/harmonic/dynmat_to_fc.py", "phonopy/harmonic/derivative_dynmat.py"):
+        tree = core.parse(rel)
+        for fn in [x for x in ast.walk(tree) if isinstance(x, ast.FunctionDef)]:
+            if "multi" not in core.src(fn):
+                continue
+            for c in ast.walk(fn):
+                if core.enclosing_function(c) is not fn:
+                    continue
+                if isinstance(c, ast.Call) and core.src(c.func).endswith(".reduceat") and len(c.args) >= 2 and "multi" in core.src(core.resolve_name(fn, c.args[1])):
+                    n += 1
+                    rep.instance("R02k", rel, core.qualname_of(fn), core.norm(core.src(c), 80), False,
+                                 f"'{core.norm(core.src(c), 70)}' sums each pair's phases from its address up to the next pair's address, not over its own m vectors", line=c.lineno)
+                # the explicit form: a slice [adrs : adrs + m] of the vectors
+                if isinstance(c, ast.Subscript) and isinstance(c.slice, ast.Slice) and c.slice.lower is not None and c.slice.upper is not None and isinstance(c.slice.upper, ast.BinOp) and isinstance(c.slice.upper.op, ast.Add) and core.src(c.slice.lower) in (core.src(c.slice.upper.left), core.src(c.slice.upper.right)) and "svecs" in core.src(c.value):
+                    n += 1
+                    rep.instance("R02k", rel, core.qualname_of(fn), core.norm(core.src(c), 80), True, "", line=c.lineno)
+    if n < 1:
+        raise AnalysisError("R02k: no consumer of the dense shortest vectors found in the Python routes (svecs[adrs : adrs + m] expected)")
+
+
 def _maptype(e, env, rel, depth=0):
     """(domain, codomain) of an index map, ('val', set) of an index value, or None when it cannot be typed"""
     if isinstance(e, ast.Name):
@@ -300,6 +325,11 @@ def _maptype(e, env, rel, depth=0):
             return None
         v = _maptype(e.elt, env2, rel, depth)
         return (dom, v[1]) if v and v[0] == "val" else None
+    if isinstance(e, ast.Subscript) and isinstance(e.value, ast.Call) and core.src(e.value.func) == "np.unique" and any(k.arg == "return_inverse" for k in e.value.keywords) and isinstance(e.slice, ast.Constant) and e.slice.value == 1 and e.value.args:
+        a = _maptype(e.value.args[0], env, rel, depth)
+        if a and a[0] != "val":
+            return (a[0], f"rank of the value among the sorted entries of a {a[0]}->{a[1]} map")
+        return None
     if isinstance(e, ast.Subscript):
         m, ix = _maptype(e.value, env, rel, depth), _maptype(e.slice, env, rel, depth)
         if m and ix and m[0] != "val" and ix[0] == "val":
